@@ -35,7 +35,7 @@ fn all_pairs(n: u64) -> Box<dyn Iterator<Item = Vec<u64>>> {
     }))
 }
 
-fn decode<M: Model>(pts: &[M::O], p: u64, t: &mut Tape<'_>) -> Case<M> {
+fn decode<M: Model>(pts: &[M::O], insub: &[bool], p: u64, t: &mut Tape<'_>) -> Case<M> {
     let n = pts.len();
     let i = t.idx(n);
     let j = t.idx(n);
@@ -55,7 +55,7 @@ fn decode<M: Model>(pts: &[M::O], p: u64, t: &mut Tape<'_>) -> Case<M> {
     let jp = junk(t);
     let jq = junk(t);
     let sel = t.u64();
-    Case { p: pts[i], q: pts[j], lam, mu, nu, jp, jq, sel }
+    Case { p: pts[i], q: pts[j], lam, mu, nu, jp, jq, sel, try_new: insub[i] }
 }
 
 fn show<M: Model>(name: &str, c: &Case<M>) -> String {
@@ -65,15 +65,15 @@ fn show<M: Model>(name: &str, c: &Case<M>) -> String {
     )
 }
 
-fn sw_rel<P: SWCurveConfig>(name: &'static str, pts: &[Sw<P::BaseField>], p: u64, t: &mut Tape<'_>, o: &mut Obs) -> R {
-    let c = decode::<SwM<P>>(pts, p, t);
+fn sw_rel<P: SWCurveConfig>(name: &'static str, pts: &[Sw<P::BaseField>], insub: &[bool], p: u64, t: &mut Tape<'_>, o: &mut Obs) -> R {
+    let c = decode::<SwM<P>>(pts, insub, p, t);
     o.show(|| show(name, &c));
     classify(&c, o)?;
     sw_battery::<P>(&c, o)
 }
 
-fn te_rel<P: TECurveConfig>(name: &'static str, pts: &[Te<P::BaseField>], p: u64, t: &mut Tape<'_>, o: &mut Obs) -> R {
-    let c = decode::<TeM<P>>(pts, p, t);
+fn te_rel<P: TECurveConfig>(name: &'static str, pts: &[Te<P::BaseField>], insub: &[bool], p: u64, t: &mut Tape<'_>, o: &mut Obs) -> R {
+    let c = decode::<TeM<P>>(pts, insub, p, t);
     o.show(|| show(name, &c));
     classify(&c, o)?;
     te_battery::<P>(&c, o)
@@ -92,8 +92,12 @@ pub fn relations(out: &mut Vec<Rel>, tier: Tier) {
                 assert!(pts.contains(&sw_from_affine::<$cfg>(&<$cfg as SWCurveConfig>::GENERATOR)), "toy curve {}: generator", $name);
                 let n = pts.len() as u64;
                 let pp = pts.clone();
+                // membership in the prime-order subgroup, by the oracle: r * P = O
+                let rr = num_bigint::BigUint::from($r);
+                let insub: Arc<Vec<bool>> = Arc::new(pts.iter().map(|q| sw_mul(&a, q, &rr) == Sw::Inf).collect());
+                assert_eq!(insub.iter().filter(|b| **b).count() as u64, $r, "toy curve {}: subgroup size", $name);
                 out.push(
-                    Rel::new(format!("toy-sw-pairs/{}", $name), tier.pick(400, 4000), TAPE, move |t, o| sw_rel::<$cfg>($name, &pp, $p, t, o))
+                    Rel::new(format!("toy-sw-pairs/{}", $name), tier.pick(400, 4000), TAPE, move |t, o| sw_rel::<$cfg>($name, &pp, &insub, $p, t, o))
                         .exhaustive(move || all_pairs(n)),
                 );
             }
@@ -125,16 +129,20 @@ pub fn relations(out: &mut Vec<Rel>, tier: Tier) {
                 let n = pts.len() as u64;
                 let pp = pts.clone();
                 let dom = if complete { "whole-curve" } else { "subgroup" };
+                let subgroup = te_subgroup(&a, &d, &g, $r);
+                let insub: Arc<Vec<bool>> = Arc::new(pts.iter().map(|q| subgroup.contains(q)).collect());
+                assert_eq!(insub.iter().filter(|b| **b).count() as u64, $r, "toy curve {}: subgroup size", $name);
                 out.push(
-                    Rel::new(format!("toy-te-pairs/{}.{}", $name, dom), tier.pick(400, 4000), TAPE, move |t, o| te_rel::<$cfg>($name, &pp, $p, t, o))
+                    Rel::new(format!("toy-te-pairs/{}.{}", $name, dom), tier.pick(400, 4000), TAPE, move |t, o| te_rel::<$cfg>($name, &pp, &insub, $p, t, o))
                         .exhaustive(move || all_pairs(n)),
                 );
                 // the prime-order subgroup of a complete curve as its own (small) space: every pair x more patterns
                 if complete {
                     let sub = Arc::new(te_subgroup(&a, &d, &g, $r));
                     let m = sub.len() as u64;
+                    let all_in: Arc<Vec<bool>> = Arc::new(vec![true; sub.len()]);
                     out.push(
-                        Rel::new(format!("toy-te-pairs/{}.subgroup", $name), tier.pick(200, 2000), TAPE, move |t, o| te_rel::<$cfg>($name, &sub, $p, t, o))
+                        Rel::new(format!("toy-te-pairs/{}.subgroup", $name), tier.pick(200, 2000), TAPE, move |t, o| te_rel::<$cfg>($name, &sub, &all_in, $p, t, o))
                             .exhaustive(move || all_pairs(m)),
                     );
                 }
